@@ -367,14 +367,16 @@ def inclusion(expr: ast.AST, env: Dict[str, ast.AST]) -> Optional[Tuple[ast.AST,
                     if _same(b, q, env):
                         return (q, p, "subset")
             return (l, r, "equal")
-        if isinstance(op, ast.LtE):
-            return (l, r, "subset")
-        if isinstance(op, ast.GtE):
-            return (r, l, "subset")
-        if isinstance(op, ast.Lt):
-            return (l, r, "proper")
-        if isinstance(op, ast.Gt):
-            return (r, l, "proper")
+        # ordering operators mean inclusion only between sets (numbers and lists compare differently)
+        if _is_set_expr(l, env) and _is_set_expr(r, env):
+            if isinstance(op, ast.LtE):
+                return (l, r, "subset")
+            if isinstance(op, ast.GtE):
+                return (r, l, "subset")
+            if isinstance(op, ast.Lt):
+                return (l, r, "proper")
+            if isinstance(op, ast.Gt):
+                return (r, l, "proper")
     if isinstance(e, ast.Call) and isinstance(e.func, ast.Attribute) and len(e.args) == 1 and not neg:
         if e.func.attr == "issubset":
             return (e.func.value, e.args[0], "subset")
@@ -393,6 +395,22 @@ def inclusion(expr: ast.AST, env: Dict[str, ast.AST]) -> Optional[Tuple[ast.AST,
                 if src(g.elt.left) == src(gen.target):
                     return (gen.iter, g.elt.comparators[0], "subset")
     return None
+
+
+def _is_set_expr(e: ast.AST, env, depth: int = 0) -> bool:
+    """The expression builds a set: set(...)/frozenset(...), a set display/comprehension, a set operation on sets."""
+    e = resolve_local(e, env)
+    while isinstance(e, ast.NamedExpr):
+        e = e.value
+    if isinstance(e, (ast.Set, ast.SetComp)):
+        return True
+    if isinstance(e, ast.Call) and isinstance(e.func, ast.Name) and e.func.id in ("set", "frozenset"):
+        return True
+    if isinstance(e, ast.Call) and isinstance(e.func, ast.Attribute) and e.func.attr in ("intersection", "union", "difference", "symmetric_difference", "copy") and depth < 3:
+        return _is_set_expr(e.func.value, env, depth + 1)
+    if isinstance(e, ast.BinOp) and isinstance(e.op, (ast.BitAnd, ast.BitOr, ast.Sub, ast.BitXor)) and depth < 3:
+        return _is_set_expr(e.left, env, depth + 1) and _is_set_expr(e.right, env, depth + 1)
+    return False
 
 
 def _intersection(e: ast.AST, env) -> Optional[Tuple[ast.AST, ast.AST]]:
